@@ -18,7 +18,7 @@ RULE = (
     "position, companions, format)."
 )
 ASSUMPTIONS = ["defect classes are the ones the statement lists", "a failing picosvg step counts as the build stopping"]
-N_CLI = {"quick": 40, "thorough": 400}
+N_CLI = {"quick": 60, "thorough": 600}
 N_INPROC = {"quick": 240, "thorough": 3000}
 TIMEOUT = {"quick": 1500, "thorough": 6 * 3600}
 
@@ -29,13 +29,16 @@ GOOD = [
     ("emoji_u42.svg", '<svg xmlns="http://www.w3.org/2000/svg" viewBox="0 0 100 100"><path d="M10,90 L50,20 L90,90 Z" fill="#771199"/></svg>'),
 ]
 BODY = '<rect x="15" y="15" width="55" height="35" fill="{fill}"/>'
-DEFECTS = ["dup-glyph-name", "dup-basename", "dup-scheme", "dup-case", "malformed-xml", "truncated-xml", "unknown-colour", "pattern-paint", "missing-gradient", "bad-spread", "palette-conflict", "masters-mismatch", "bitmap-too-big"]
+DEFECTS = ["missing-listed-source", "dup-glyph-name", "dup-basename", "dup-scheme", "dup-case", "malformed-xml", "truncated-xml", "unknown-colour", "pattern-paint", "missing-gradient", "bad-spread", "palette-conflict", "masters-mismatch", "bitmap-too-big"]
 VECTOR_FORMATS = ["glyf_colr_1", "glyf_colr_0", "picosvg", "glyf", "cff_colr_1"]
 
 
 def make_defect(kind, r):
     """-> (list of (name, text), formats where it applies, extra flags, description)"""
     S = lambda body, defs="": f'<svg xmlns="http://www.w3.org/2000/svg" viewBox="0 0 100 100">{defs}{body}</svg>'
+    if kind == "missing-listed-source":
+        # a configuration file that lists a source which is not there (misspelt / deleted): text None = never written
+        return [(r.choice(["emoji_u1f6ff.svg", "emoji_u1f6f[1].svg", "gone/emoji_u1f6fe.svg"]), None)], VECTOR_FORMATS + ["untouchedsvg", "cbdt"], [], "configuration lists a source file that does not exist"
     if kind == "dup-glyph-name":
         # different codepoints, one glyph name: ASCII letters are named by the letter, everything else by lower-case hex
         a, b = r.choice([("emoji_u0061.svg", "emoji_u000a.svg"), ("emoji_u0062.svg", "emoji_u000b.svg"), ("emoji_u0066.svg", "emoji_u000f.svg")])
@@ -108,7 +111,7 @@ def run_cli(case):
                 return res
             st = os.stat(b / "Font.ttf")
             before = (cli.sha256(b / "Font.ttf"), st.st_mtime_ns)
-        cli.write_sources(src, [{"name": n, "svg": t} for n, t in bad])
+        cli.write_sources(src, [{"name": n, "svg": t} for n, t in bad if t is not None])
         names = [n for n, _ in comps] + [n for n, _ in bad]
         r.shuffle(names)
         if kind == "masters-mismatch":
@@ -126,6 +129,11 @@ def run_cli(case):
 
             (src / "vf.toml").write_text(toml.dumps(cfg))
             args = base + ["vf.toml"]
+        elif kind == "missing-listed-source":
+            import toml
+
+            (src / "listed.toml").write_text(toml.dumps({"axis": {"wght": {"name": "Weight", "default": 400}}, "master": {"regular": {"style_name": "Regular", "position": {"wght": 400}, "srcs": names}}}))
+            args = base + ["listed.toml"]
         else:
             args = base + names
         rc1, out1 = cli.nanoemoji(args, src, env, timeout=300)
@@ -173,14 +181,14 @@ def run_cli(case):
     res["nontrivial"] = True
     res["key"] = common.sha([kind, fmt, [n for n, _ in comps], preexisting, case["i"]])
     if case["i"] < 2:
-        res["sample"] = {"defect": kind, "format": fmt, "files": [n for n, _ in comps] + [n for n, _ in bad], "defective_source": bad[0][1][:300]}
+        res["sample"] = {"defect": kind, "format": fmt, "files": [n for n, _ in comps] + [n for n, _ in bad], "defective_source": (bad[0][1] or "(file absent)")[:300]}
     return res
 
 
 def run_inproc(case):
     from vf.drive import inproc
 
-    kinds = [k for k in DEFECTS if k not in ("masters-mismatch", "dup-basename")]  # those two only exist for the driver
+    kinds = [k for k in DEFECTS if k not in ("masters-mismatch", "dup-basename", "missing-listed-source")]  # those two only exist for the driver
     r = common.rng(ID, "ip", case["seed"], case["i"])
     kind = kinds[case["i"] % len(kinds)]
     bad, fmts, flags, desc = make_defect(kind, r)
